@@ -178,5 +178,35 @@ func TestGovcBoundedC07Augments(t *testing.T) {
 			}
 		}
 	}
+	// fixed cases: targets that cannot have children (anydata, anyxml, leaf-list) are reported;
+	// an augment one of whose names is taken is reported and not half applied
+	for _, fc := range []struct{ what, aug, untouched string }{
+		{"an anydata target", `augment "/t:top/t:ad" { leaf z { type string; } }`, "ad"},
+		{"an anyxml target", `augment "/t:top/t:ax" { leaf z { type string; } }`, "ax"},
+		{"a leaf-list target", `augment "/t:top/t:ll" { leaf z { type string; } }`, "ll"},
+		{"a name that is taken", `augment "/t:top" { leaf other { type string; } leaf l { type string; } leaf more { type string; } }`, ""},
+	} {
+		evals++
+		ms := NewModules()
+		for i, src := range []string{
+			`module t { namespace "urn:t"; prefix t; container top { anydata ad; anyxml ax; leaf-list ll { type string; } leaf l { type string; } } }`,
+			`module u { namespace "urn:u"; prefix u; import t { prefix t; } ` + fc.aug + ` }`} {
+			if err := ms.Parse(src, fmt.Sprintf("fx%d.yang", i)); err != nil {
+				fmt.Printf("GOVC-FAIL name=c07-augments fixed case does not parse: %v\n", err)
+			}
+		}
+		errs := ms.Process()
+		if len(errs) == 0 {
+			fmt.Printf("GOVC-FAIL name=c07-augment-errors %s: no error reported\n", fc.what)
+		}
+		top := ToEntry(ms.Modules["t"]).Dir["top"]
+		if fc.untouched != "" {
+			if n := top.Dir[fc.untouched]; n == nil || len(n.Dir) > 0 {
+				fmt.Printf("GOVC-FAIL name=c07-augment-errors %s gained children\n", fc.what)
+			}
+		} else if len(top.Dir) != 4 {
+			fmt.Printf("GOVC-FAIL name=c07-augment-errors %s: the augment is half applied, top has %d children (want the 4 it had)\n", fc.what, len(top.Dir))
+		}
+	}
 	fmt.Printf("GOVC-BOUNDED name=c07-augments-vs-model bound=%d_random_module_sets_(<=3_modules,_submodule,_2-7_chained_augments,_shuffled_statements,_seed_%d;_%d_with_a_bad_augment)_x_3_load_orders evaluations=%d distinct=%d\n", schemas, seed, bad, evals, nodes)
 }
